@@ -61,6 +61,9 @@ SIG_B = "demux-unsupported-header-discards-current"
 SIG_C = "demux-0x1n-0x4n-share-buffer"
 SIG_BC = "demux-unsupported-header-and-shared-buffer"
 SIG_T = "prog-type-never-announced"
+SIG_CAPSVC = "capsvc-never-announced"
+SIG_FLUSHASP = "flush-announces-erased-aspect"
+SIG_FUTASP = "future-aspect-overwrites-current"
 
 
 def parse_case(case):
@@ -68,7 +71,7 @@ def parse_case(case):
     by = {}
     for i, l in enumerate(case):
         w = l.split()
-        if len(w) == 2 and w[0] in ("d", "s", "p") and len(w[1]) == 4:
+        if len(w) == 2 and w[0] in ("d", "s", "p", "q") and len(w[1]) == 4:
             try:
                 v = bytes.fromhex(w[1])
             except ValueError:
@@ -264,16 +267,305 @@ def _service_oracle(case, out, type_shadow):
     return None
 
 
+# ---------------------------------------------------------------- `q` ops: every field xds_decoder writes
+PI_UNSET = {"pin": "-1.-1.-1.-1", "td": "0", "len": "-1:-1", "el": "-1:-1:-1", "title": "-", "type": "none",
+            "audio": "9.0.9.0", "capsvc": "-1", "caplang": "00000000", "cgms": "-1", "asp": "-1.-1.0"}
+PI_UNSET.update({"d%d" % i: "-" for i in range(8)})
+
+def parse_q(line):
+    """-> (delivered packet or None, events [(kind, {k: v})], sections {"S0": {}, "S1": {}, "SN": {}, "SC": {}})"""
+    w = line.split()
+    pkt, events, sec, cur = None, [], {}, None
+    i = 0
+    while i < len(w):
+        t = w[i]
+        if t == "dec":
+            data = b"" if w[i + 4] == "-" else bytes.fromhex(w[i + 4])
+            pkt = (int(w[i + 1]), int(w[i + 2]), list(data)); i += 4; cur = None
+        elif t.startswith("E:"):
+            cur = {}; events.append((t[2:], cur))
+            if t == "E:asp":
+                cur["asp"] = w[i + 1]; i += 1
+        elif t in ("S0", "S1", "SN", "SC"):
+            cur = {}; sec[t] = cur
+        elif "=" in t and cur is not None:
+            k, v = t.split("=", 1); cur[k] = v
+        i += 1
+    return pkt, events, sec
+
+def _hex(l): return bytes(l).hex() if l else "-"
+def _lang(l): return 0 if l in (0, 6, 7) else l
+AUDIO = [[9, 1, 4, 2, 3, 8, 9, 0], [9, 1, 5, 6, 7, 8, 9, 0]]
+
+def dec_expect(cls, typ, d):
+    """what libzvbi.h / EIA-608 say a packet means, as the tokens of the `q` dump: {token: value} for the
+    programme info of class `cls` (or the network), None if the packet is to be ignored.  A value None
+    means: not judged (depends on the byte behind the payload)."""
+    n = len(d)
+    if cls in (0, 1):
+        if typ == 1:
+            if n != 4: return None
+            mo, da, ho, mi = d[3] & 15, d[2] & 31, d[1] & 31, d[0] & 63
+            if mo == 0 or mo > 12 or da == 0 or ho > 23 or mi > 59: return None
+            return {"pin": "%d.%d.%d.%d" % (mo - 1, da - 1, ho, mi), "td": "1" if d[3] & 16 else "0"}
+        if typ == 2:
+            if n < 2 or n > 6: return None
+            lm = d[0] & 63
+            em = (d[2] & 63) if n >= 3 else -1
+            es = (d[4] & 63) if n >= 5 else 0
+            if lm > 59 or em > 59 or es > 59: return None
+            el = None if n == 3 else "%d:%d:%d" % ((d[3] & 63) if n >= 3 else -1, em, es)
+            return {"len": "%d:%d" % (d[1] & 63, lm), "el": el}
+        if typ == 3:
+            return {"title": _hex(X.strfu(d))} if n >= 2 else None
+        if typ == 4:
+            return {"type": _hex(d)}
+        if typ == 5:
+            if n != 2: return None
+            r, g = d[0] & 7, d[1] & 7
+            dl = (8 if d[0] & 0x20 else 0) | (4 if d[1] & 8 else 0) | (2 if d[1] & 0x10 else 0) | (1 if d[1] & 0x20 else 0)
+            if not d[0] & 8:
+                return {"rating": "1/%d/0" % r} if r else None
+            if not d[0] & 0x10:
+                return {"rating": "2/%d/%d" % (g, dl)}
+            if not d[1] & 8:
+                if not d[0] & 0x20: return {"rating": "3/%d/0" % g} if g <= 6 else None
+                return {"rating": "4/%d/0" % g} if g <= 5 else None
+            return None
+        if typ == 6:
+            if n != 2: return None
+            return {"audio": "%d.%d.%d.%d" % (AUDIO[0][d[0] & 7], _lang((d[0] >> 3) & 7), AUDIO[1][d[1] & 7], _lang((d[1] >> 3) & 7))}
+        if typ == 7:
+            if n > 8: return None
+            cl, sv = [0] * 8, 0
+            for b in d:
+                ch = (b & 1) * 4 + ((b & 7) >> 1)
+                sv |= 1 << ch
+                cl[ch] = _lang((b >> 3) & 7)
+            return {"capsvc": str(sv), "caplang": "".join(str(x) for x in cl)}
+        if typ == 8:
+            return {"cgms": str(d[0] & 63)} if n == 1 else None
+        if typ == 9:
+            if n > 3: return None
+            if n == 1: return {"asp": None}
+            return {"asp": "%d.%d.%d" % ((d[0] & 63) + 22, 262 - (d[1] & 63), 2 if n >= 3 and d[2] & 1 else 1)}
+        if 0x10 <= typ <= 0x17:
+            return {"d%d" % (typ & 7): _hex(X.strfu(d))}
+        return None
+    if cls == 2:
+        if typ == 1: return {"name": _hex(X.strfu(d))}
+        if typ == 2: return {"call": _hex(X.strfu(d))}
+        if typ == 3: return {"td": str((d[1] & 31) * 60 + (d[0] & 63))} if n == 2 else None
+    return None
+
+
+def dec_oracle(case, out):
+    """programme / network information equals the decoding of the delivered packets (`q` ops): after every
+    delivered packet the fields of its own (class, type) hold the packet's content, every other field is
+    unchanged or - only by the documented flush rules - back to unknown; PROG_INFO is sent exactly at the
+    repeat of unchanged content whose type bit is pending and carries the stored information; ASPECT carries
+    the stored aspect ratio; NETWORK / NETWORK_ID follow the repeat of a changed name."""
+    known = [None]
+    def quirk(msg):
+        if known[0] is None: known[0] = msg
+    fresh = dict(PI_UNSET); fresh["rating"] = "0/0/0"
+    prev = {"S0": dict(fresh), "S1": dict(fresh), "SN": {"name": "-", "call": "-", "cyc": "0", "nuid": "0", "td": "0"},
+            "SC": {"cyc0": "-", "cyc1": "-", "asrc": "0", "lang": "00000000"}}
+    for i, l in enumerate(case):
+        if not l.startswith("q "):
+            if l.startswith(("s ", "p ")): return None       # mixed streams: the dump is not continuous
+            continue
+        if i >= len(out) or not out[i].startswith("ok "):
+            return "service-decoder-output: '%s' -> '%s'" % (l, out[i] if i < len(out) else "<none>")
+        if " err:" in out[i]:
+            return "model-error-site-on-code: %s" % out[i][:80]
+        pkt, events, sec = parse_q(out[i])
+        try:
+            w = _dec_judge(i, pkt, events, sec, prev)
+        except _Quirk as q:
+            quirk(str(q)); w = None
+        if w: return w
+        if pkt is not None: prev = sec
+    return known[0]
+
+
+class _Quirk(Exception):
+    pass
+
+
+def _dec_judge(i, pkt, events, sec, prev):
+    if True:
+        if pkt is None:
+            if events: return "event-without-packet: op %d" % i
+            return None
+        if set(sec) != {"S0", "S1", "SN", "SC"}:
+            return "service-decoder-output: no state dump at op %d" % i
+        cls, typ, d = pkt
+        exp = dec_expect(cls, typ, d)
+        own_sec = ("S%d" % cls) if cls in (0, 1) else ("SN" if cls == 2 else None)
+        where = "op %d packet %d/0x%02x %s" % (i, cls, typ, bytes(d).hex())
+        fut9 = (cls == 1 and typ == 9 and exp is not None)
+        # -- own fields
+        changed = False
+        if exp is not None:
+            for k, v in exp.items():
+                if v is None: changed = changed or sec[own_sec][k] != prev[own_sec][k]; continue
+                if sec[own_sec][k] != v:
+                    if fut9 and sec["S0"]["asp"] == v:
+                        raise _Quirk(SIG_FUTASP + ": aspect ratio packet of the future class stored into the current programme (" + where + ")")
+                    return "prog-info-field: %s %s.%s is %s, packet says %s" % (where, own_sec, k, sec[own_sec][k], v)
+                changed = changed or prev[own_sec][k] != v
+        # -- every other field
+        flush_ok = {"S0": (cls == 0 and typ in (1, 3)) or (cls == 2 and typ == 1),
+                    "S1": (cls == 1 and typ in (1, 3)) or (cls == 2 and typ == 1)}
+        for sn in ("S0", "S1"):
+            for k, v in sec[sn].items():
+                if exp is not None and sn == own_sec and k in exp: continue
+                o = prev[sn][k]
+                if v == o: continue
+                if fut9 and sn == "S0" and k == "asp":
+                    raise _Quirk(SIG_FUTASP + ": aspect ratio packet of the future class stored into the current programme (" + where + ")")
+                if k == "rating":
+                    if flush_ok[sn] and v.split("/")[0] == "0" and v.split("/")[1:] == o.split("/")[1:]: continue
+                elif flush_ok[sn] and v == PI_UNSET[k]: continue
+                return "prog-info-foreign-write: %s changed %s.%s from %s to %s" % (where, sn, k, o, v)
+        for k in ("name", "call", "td"):
+            if exp is not None and own_sec == "SN" and k in exp: continue
+            if sec["SN"][k] != prev["SN"][k] and not (k == "name" and (cls, typ) == (2, 2) and sec["SN"][k] == "-"):
+                return "prog-info-foreign-write: %s changed network %s from %s to %s" % (where, k, prev["SN"][k], sec["SN"][k])
+        if exp is None and sec != prev:
+            return "prog-info-ignored-packet-wrote: %s" % where
+        if cls == 0 and typ == 7 and exp is not None:
+            lg = list(prev["SC"]["lang"])
+            for b in d: lg[(b & 1) * 4 + ((b & 7) >> 1)] = exp["caplang"][(b & 1) * 4 + ((b & 7) >> 1)]
+            if sec["SC"]["lang"] != "".join(lg):
+                return "prog-info-field: %s channel languages %s expected %s" % (where, sec["SC"]["lang"], "".join(lg))
+        elif sec["SC"]["lang"] != prev["SC"]["lang"]:
+            return "prog-info-foreign-write: %s changed the channel languages" % where
+        # -- events
+        kinds = [k for k, _ in events]
+        for k, e in events:
+            if k == "pi":
+                if cls not in (0, 1) or e.get("f") != str(cls):
+                    return "prog-info-event: %s raised PROG_INFO f=%s" % (where, e.get("f"))
+                snap = {kk: vv for kk, vv in e.items() if kk != "f"}
+                if snap != sec["S%d" % cls]:
+                    return "prog-info-event: %s PROG_INFO differs from the stored information" % where
+            elif k == "asp":
+                want = "22.262.1" if (cls, typ) == (2, 1) else sec["S%d" % (cls if cls in (0, 1) else 0)]["asp"]
+                if e["asp"] != want:
+                    if fut9: raise _Quirk(SIG_FUTASP + ": aspect ratio packet of the future class announced as current aspect ratio (" + where + ")")
+                    if typ in (1, 3) and e["asp"] == prev["S0"]["asp"]:
+                        raise _Quirk(SIG_FLUSHASP + ": flush_prog_info announces the aspect ratio it has just erased (" + where + ")")
+                    return "prog-info-event: %s ASPECT %s, stored %s" % (where, e["asp"], want)
+            elif k == "net":
+                if (e.get("name"), e.get("call"), e.get("nuid")) != (sec["SN"]["name"], sec["SN"]["call"], sec["SN"]["nuid"]):
+                    return "prog-info-event: %s NETWORK differs from the stored network" % where
+            elif k != "netid":
+                return "prog-info-event: %s unexpected event %s" % (where, k)
+        if cls in (0, 1):
+            pend = prev["SC"]["cyc%d" % cls].split(",")
+            want_pi = exp is not None and not changed and str(typ) in pend
+            if want_pi != ("pi" in kinds):
+                if typ == 7:
+                    # one root cause, two faces: naming a language always counts as a change; dropping all
+                    # languages never does
+                    raise _Quirk(SIG_CAPSVC + ": caption services are compared after the stored languages were cleared - "
+                                 + ("a packet naming a language is never announced by its repeat" if want_pi else
+                                    "a packet that drops the languages is announced as unchanged") + " (" + where + ")")
+                if fut9:
+                    raise _Quirk(SIG_FUTASP + ": aspect ratio packet of the future class compared with the current programme (" + where + ")")
+                return "prog-info-announce: %s PROG_INFO %s, content %s, type bit %s" % (
+                    where, "sent" if "pi" in kinds else "missing", "changed" if changed else "unchanged",
+                    "pending" if str(typ) in pend else "clear")
+            if kinds.count("pi") > 1: return "prog-info-announce: %s PROG_INFO sent twice" % where
+            if "asp" in kinds and typ == 9 and not changed and sec["S0"]["asp"] == prev["S0"]["asp"]:
+                return "prog-info-event: %s ASPECT without a change" % where
+        want_id = (cls, typ) == (2, 1) and not changed and prev["SN"]["cyc"] == "1"
+        if want_id != ("netid" in kinds):
+            return "network-announce: %s NETWORK_ID %s" % (where, "sent" if "netid" in kinds else "missing")
+        if ("net" in kinds) != (want_id and sec["SN"]["nuid"] != prev["SN"]["nuid"]):
+            return "network-announce: %s NETWORK %s" % (where, "sent" if "net" in kinds else "missing")
+    return None
+
+
+def frame_oracle(case, out):
+    """vbi_xds_demux_feed_frame: only field-2 caption lines (id CAPTION_525_F2 or CAPTION_525, line 284 or unknown)
+    reach the XDS demultiplexer - never field-1 caption, other services or other lines; the packets sent on
+    field 2 are delivered exactly as the reference receiver says whatever the rest of the frame carries; FALSE
+    is returned iff a field-2 line had a parity error (the rest of that frame is not looked at)."""
+    fed, got = [], []
+    any_frame = False
+    for i, l in enumerate(case):
+        w = l.split()
+        if not w or w[0] != "frame":
+            continue
+        try:
+            n = int(w[1], 0)
+            if n < 0 or len(w) != 2 + 3 * n: raise ValueError
+            lines = [(int(w[2 + 3 * k], 0), int(w[3 + 3 * k], 0), bytes.fromhex(w[4 + 3 * k])) for k in range(n)]
+            if any(len(d) != 2 or a < 0 or b < 0 for a, b, d in lines): raise ValueError
+        except (ValueError, IndexError):
+            if i < len(out) and out[i] != "rej parse":
+                return "frame-op-accepted: '%s' -> '%s'" % (l, out[i])
+            continue
+        any_frame = True
+        if i >= len(out) or not out[i].startswith("ok "):
+            return "rejected-op: '%s' -> '%s'" % (l, out[i] if i < len(out) else "<none>")
+        want_r = 1
+        for ident, line, d in lines:
+            if ident in (0x40, 0x60) and line in (284, 0):
+                fed.append((d[0], d[1]))
+                if not (X.parity_ok(d[0]) and X.parity_ok(d[1])):
+                    want_r = 0
+                    break
+        o = parse_out(out[i])
+        if o["err"] or o["oob"]:
+            return "model-error-site-on-code: %s" % (o["err"] or "oob")
+        if o["r"] != want_r:
+            return "frame-return-value: r=%s, expected %d for '%s'" % (o["r"], want_r, l[:120])
+        for cls, sub, n2, data, z in o["pkts"]:
+            if not (1 <= n2 <= 32) or len(data) != n2 or z != 1:
+                return "delivered-length: %d" % n2
+            got.append((cls, sub, data))
+    if not any_frame:
+        return None
+    exp, conf = X.reference(fed, "d")
+    if conf and got != exp:
+        k = 0
+        while k < min(len(exp), len(got)) and exp[k] == got[k]:
+            k += 1
+        fmt = lambda l: [(c, t, d.hex()) for c, t, d in l[k:k + 2]] or "nothing more"
+        return ("frame-delivery-mismatch: the packets sent on field 2 are not what is delivered (%d expected / %d delivered, "
+                "first difference at #%d: expected %s got %s)" % (len(exp), len(got), k, fmt(exp), fmt(got)))
+    return None
+
+
+def wire_nul(rng, cls, sub, payload, p_nul=0.0):
+    """wire form; with p_nul some characters travel alone in a pair (c, NUL) in the middle of the packet"""
+    body, i = [], 0
+    while i < len(payload):
+        if i + 1 < len(payload) and rng.random() >= p_nul:
+            body.append((payload[i], payload[i + 1])); i += 2
+        else:
+            body.append((payload[i], 0)); i += 1
+    s7 = 2 * cls + 1 + sub + sum(a + b for a, b in body) + 0x0F
+    return [(2 * cls + 1, sub)] + body + [(0x0F, (-s7) % 128)]
+
+
 class C09(verif.Spec):
     prop = "C09"
     comp = "xds"
-    lean_modules = ["ZvbiModel.Props.C09"]
+    lean_modules = ["ZvbiModel.Props.C09", "ZvbiModel.Props.C09Sep"]
     harness = "xds_harness"
     harness_link_lib = True
     timeout_per_case = 2.0
-    partial_note = ("service decoder: theorems for programme name, network name, call letters; the other programme-info "
-                    "types (id, length, type, rating, CGMS-A, description) are modelled and tied by correspondence and the "
-                    "service oracle only; audio / caption services / aspect ratio (types 6, 7, 9) are not modelled")
+    partial_note = ("service decoder: complete model `Dec` (every packet type, field and event of xds_decoder) tied to the code by "
+                    "field-by-field correspondence and a field-level oracle; proved for all states / histories: index safety, "
+                    "text fields equal the packet, nothing but the packet's own fields is written (documented flushes apart), "
+                    "announcement on the repeat (epilogue, CGMS-A instance); the history-level statement 'every field equals "
+                    "the last delivered packet of its type' is kept as prog_info_equals_packets_full (def, not proved); "
+                    "three deviations of the current tree are proved as counterexamples and reported as known findings")
     assumptions = ["little-endian int layout for the buffer[-1]/buffer[-2] overlay of caption.c (only on the path the "
                    "model reports as out of bounds)",
                    "the caption decoder proper does not touch cc->xds / curr_sp / sub_packet (checked by grep and by "
@@ -281,8 +573,10 @@ class C09(verif.Spec):
     trusted_base = ["translate/gen_xds.py (extents, guards, two control-flow flags; extents cross-checked by the "
                     "`extents` op, flags by the corpus replays)",
                     "harness/xds_harness.c incl. the macro that redirects the xds_decoder call to a printing hook",
-                    "lib/xds_util.py reference receiver = my reading of EIA-608 XDS packet framing"]
-    open_statements = ["prog_info_equals_packets beyond the modelled packet types (see NOTES/C09.md)"]
+                    "lib/xds_util.py reference receiver = my reading of EIA-608 XDS packet framing",
+                    "Dec.lean: array extents and caption ids are constants cross-checked by the harness op `extents2`; the three "
+                    "control-flow constants are compared with patterns in src/caption.c (dec-quirk-flag)"]
+    open_statements = ["C09Sep.prog_info_equals_packets_full (induction over packet histories; per-call lemmas are proved)"]
 
     # ------------------------------------------------------------------ generation
     def gen_cases(self, rng, tier):
@@ -399,14 +693,58 @@ class C09(verif.Spec):
                 i, j = rng.randrange(len(st)), rng.randrange(len(st))
                 st[i], st[j] = st[j], st[i]
             streams.append(("shuffled", st))
+        # 10. vbi_xds_demux_feed_frame: frames mixing field-1 caption, field-2 XDS, other services, every id tagging
+        frame_cases = []
+        F1, F2, C525 = 0x20, 0x40, 0x60
+        for _ in range(N // 8):
+            st = X.raw(X.merge(rng, [pk("noalias") for _ in range(rng.randrange(1, 4))], safe=True))
+            if rng.random() < 0.25:
+                i = rng.randrange(len(st)); a, b = st[i]; st[i] = (a ^ 0x80, b) if rng.random() < 0.5 else (a, b ^ 0x80)
+            style2 = rng.choice([None, (F2, 284), (F2, 0), (C525, 284), (C525, 0)])
+            style1 = rng.choice([None, (F1, 21), (F1, 0), (C525, 21)])
+            ops, k = [], 0
+            while k < len(st):
+                lines = []
+                def f1line():
+                    r = rng.random()
+                    if r < 0.45: q = (rng.randrange(0x20, 0x80), rng.randrange(0x20, 0x80))
+                    elif r < 0.7: q = rng.choice(X.CAPTION_CTRL)
+                    elif r < 0.85: q = (rng.randrange(1, 0x10), rng.randrange(0, 0x80))      # looks like an XDS control pair
+                    else: q = (0, 0)
+                    t = style1 or rng.choice([(F1, 21), (F1, 0), (C525, 21)])
+                    return (t[0], t[1], X.par(q[0]), X.par(q[1]))
+                if rng.random() < 0.8: lines.append(f1line())
+                for _ in range(rng.choice([0, 1, 1, 1, 1, 2])):
+                    if k < len(st):
+                        t = style2 or rng.choice([(F2, 284), (F2, 0), (C525, 284), (C525, 0)])
+                        lines.append((t[0], t[1], st[k][0], st[k][1])); k += 1
+                for _ in range(rng.choice([0, 0, 1, 2])):
+                    # lines that must be skipped: other services, sets of ids, caption ids on other lines
+                    t = rng.choice([(0x2, 7), (0x4, 16), (0x400, 23), (0x8, 22), (0x10, 335), (0, 0), (F2 | 0x2, 284), (C525 | 0x400, 0),
+                                    (F2, 285), (F2, 21), (C525, 283), (C525, 22), (F1 | 0x2, 0), (0x80, 284), (0x1000, 0)])
+                    lines.append((t[0], t[1], X.par(rng.randrange(128)), X.par(rng.randrange(128))))
+                if rng.random() < 0.5: rng.shuffle(lines)
+                # keep the order of the field-2 pairs
+                f2 = [l for l in lines if l[0] in (F2, C525) and l[1] in (284, 0)]
+                f2s = sorted(f2, key=lambda l: st.index((l[2], l[3])) if (l[2], l[3]) in st else 0)
+                it = iter(f2s)
+                lines = [next(it) if (l[0] in (F2, C525) and l[1] in (284, 0)) else l for l in lines]
+                ops.append("frame %d %s" % (len(lines), " ".join("0x%x %d %s" % (i, ln, X.hx(a, b)) for i, ln, a, b in lines)) if lines
+                           else "frame 0")
+            frame_cases.append(ops)
+        frame_cases.append(["frame", "frame 1", "frame 1 0x40 284", "frame 1 0x40 284 80", "frame 2 0x40 284 8080", "frame -1",
+                            "frame 1 zz 284 8080", "frame 1 0x40 284 8080 1"])
         self._tags = {}
+        for c in frame_cases:
+            self._tags["\n".join(c)] = "frame"
+            cases.append(c)
         for tag, st in streams:
             for mode in ("d", "s"):
                 c = X.ops(mode, st)
                 self._tags["\n".join(c)] = tag + "/" + mode
                 cases.append(c)
         # malformed op lines
-        cases.append(["d", "d 80", "d 8080 80", "s zz80", "s 808080", "q 8080", "d 0x80", "extents 1", "s -"])
+        cases.append(["d", "d 80", "d 8080 80", "s zz80", "s 808080", "z 8080", "q", "q 80", "extents2 1", "d 0x80", "extents 1", "s -"])
         return cases
 
     def classify(self, case):
@@ -418,8 +756,11 @@ class C09(verif.Spec):
     def oracle(self, case, out):
         if len(out) != len(case):
             return "output-count: %d outputs for %d ops" % (len(out), len(case))
+        fr = frame_oracle(case, out)
+        if fr:
+            return fr
         by = parse_case(case)
-        for mode in ("d", "s", "p"):
+        for mode in ("d", "s", "p", "q"):
             if mode not in by:
                 continue
             rmode = "d" if mode == "d" else "s"
@@ -451,6 +792,10 @@ class C09(verif.Spec):
                     got.append((cls, sub, data))
             if mode == "p":
                 w = service_oracle(case, out)
+                if w:
+                    return w
+            if mode == "q":
+                w = dec_oracle(case, out)
                 if w:
                     return w
             exp, conf = X.reference(pairs, rmode)
@@ -521,7 +866,115 @@ class C09(verif.Spec):
             cases.append(X.ops("p", [(X.par(a), X.par(b)) for a, b in st]))
         return cases
 
+    # ------------------------------------------------------------------ complete service decoder (`q` ops)
+    def gen_dec_cases(self, rng, tier):
+        """packet sequences over every (class, type) xds_decoder handles, valid and malformed lengths,
+        repeated so that the second-occurrence rules fire, some characters sent as (c, NUL) mid-packet"""
+        N = 400 if tier == "quick" else 5000
+        cases = [["extents2"]]
+        b6 = lambda: 0x40 | rng.randrange(64)
+        def text(lo=1, hi=32):
+            t = X.rand_payload(rng, rng.randrange(lo, hi + 1))
+            if rng.random() < 0.25: t = ([0x20] * rng.randrange(1, 3) + t)[:32]
+            return t
+        # every payload length 1..32 for the types that write arrays, every class
+        for n in range(1, 33):
+            for cls, typ in ((0, 3), (1, 3), (0, 4), (1, 0x10), (0, 0x17), (2, 1), (2, 2), (0, 7), (0, 9), (0, 2), (3, 1)):
+                w = wire_nul(rng, cls, typ, X.rand_payload(rng, n))
+                cases.append(X.ops("q", [(X.par(a), X.par(b)) for a, b in w + w]))
+        for _ in range(N):
+            pool = {}
+            def pick(key, mk):
+                l = pool.setdefault(key, [])
+                if len(l) < 2: l.append(mk())
+                return rng.choice(l)
+            st = []
+            p_nul = rng.choice([0.0, 0.0, 0.15])
+            focus = rng.choice([None, None, 1, 3, 5, 6, 7, 9])
+            for _ in range(rng.randrange(4, 18)):
+                r = rng.random()
+                cls = rng.choice([0, 0, 0, 1])
+                if r < 0.62:
+                    typ = focus if (focus and rng.random() < 0.5) else rng.choice(
+                        [1, 1, 2, 3, 3, 4, 5, 6, 7, 7, 8, 9, 9, 0x10 + rng.randrange(8), rng.choice([0x0A, 0x0F, 0x0D])])
+                    if typ == 1:
+                        mk = lambda: [b6(), 0x40 | rng.randrange(26), 0x40 | rng.randrange(32), 0x40 | rng.randrange(14) | rng.choice([0, 0x10])]
+                        if rng.random() < 0.1: mk = lambda: [b6() for _ in range(rng.choice([3, 5]))]
+                    elif typ == 2: mk = lambda: [b6() for _ in range(rng.randrange(1, 8))]
+                    elif typ == 3: mk = lambda: text()
+                    elif typ == 4: mk = lambda: X.rand_payload(rng, rng.randrange(1, 33))
+                    elif typ == 5: mk = lambda: [b6() for _ in range(rng.choice([2, 2, 2, 1, 3]))]
+                    elif typ == 6: mk = lambda: [b6() for _ in range(rng.choice([2, 2, 2, 1, 3]))]
+                    elif typ == 7: mk = lambda: [b6() for _ in range(rng.randrange(1, 10))]
+                    elif typ == 8: mk = lambda: [b6() for _ in range(rng.choice([1, 1, 1, 2]))]
+                    elif typ == 9: mk = lambda: [b6() for _ in range(rng.randrange(1, 5))]
+                    else: mk = lambda: text()
+                    data = pick((cls, typ), mk)
+                elif r < 0.85:
+                    cls, typ = 2, rng.choice([1, 1, 1, 2, 3, 4])
+                    if typ == 3: mk = lambda: [b6() for _ in range(rng.choice([2, 2, 1, 3]))]
+                    else: mk = lambda: text(1, 32 if rng.random() < 0.3 else 8)
+                    data = pick((cls, typ), mk)
+                else:
+                    cls, typ = 3, rng.choice([1, 2, 3, 4])
+                    data = [b6() for _ in range(rng.randrange(1, 8))]
+                w = wire_nul(rng, cls, typ, data, p_nul)
+                if rng.random() < 0.05:
+                    w[-1] = (0x0F, (w[-1][1] + 1) % 128)
+                for _ in range(rng.choice([1, 2, 2, 3])):
+                    st += w
+                    if rng.random() < 0.25: st += X.caption_run(rng)
+            cases.append(X.ops("q", [(X.par(a), X.par(b)) for a, b in st]))
+        return cases
+
+    def dec_flags(self):
+        """the three control-flow facts Dec.lean is written for, against the patterns in src/caption.c"""
+        import re
+        src = open(os.path.join(verif.REPO, "src", "caption.c"), errors="replace").read()
+        lean = open(os.path.join(verif.LEAN, "ZvbiModel", "Xds", "Dec.lean")).read()
+        code = {"capLangClearedFirst": bool(re.search(r"pi->caption_language\[i\]\s*=\s*NULL", src)),
+                "flushSendsOldAspect": bool(re.search(r"e->ev\.aspect\s*=\s*pi->aspect;\s*vbi_reset_prog_info", src)),
+                "aspectAlwaysCurrent": bool(re.search(r"vbi->prog_info\[0\]\.aspect\s*=\s*\*r", src))}
+        bad = []
+        for k, v in code.items():
+            m = re.search(r"def %s : Bool := (true|false)" % k, lean)
+            if not m or (m.group(1) == "true") != v:
+                bad.append("%s: source says %s, Dec.lean says %s" % (k, v, m.group(1) if m else "?"))
+        return code, bad
+
     def extra_checks(self, ctx):
+        bad = self.extra_checks_svc(ctx)
+        cases = self.gen_dec_cases(ctx["rng"], ctx["tier"])
+        outs, inc = verif.run_side(ctx["hcmd"], cases, self.timeout_per_case)
+        mouts, _ = verif.run_side(ctx["mcmd"], cases, self.timeout_per_case)
+        for x in inc:
+            bad.append(("%s of the real code in the service decoder (%s)" % (x["kind"], verif.summarize_san(x["detail"])),
+                        cases[x["case"]]))
+        skip = {x["case"] for x in inc}
+        agree = pkts = 0
+        seen = set()
+        for i, c in enumerate(cases):
+            if i in skip: continue
+            o = outs.get(i, [])
+            pkts += sum(1 for l in o if " dec " in l)
+            w = dec_oracle(c, o)
+            if w and w.split(":")[0] not in seen:
+                seen.add(w.split(":")[0])
+                bad.append((w, c))
+            d = verif.first_diff(o, mouts.get(i, []))
+            if d is None:
+                agree += 1
+            elif "corr" not in seen:
+                seen.add("corr")
+                bad.append(("service-decoder-correspondence: op %d impl '%s' model '%s'" % (d[0], d[1][:400], d[2][:400]), c))
+        code, fbad = self.dec_flags()
+        for f in fbad:
+            bad.append(("dec-quirk-flag: " + f, ["extents2"]))
+        self.extra_coverage.update({"dec_cases": len(cases), "dec_cases_model_agrees": agree, "dec_packets_judged": pkts,
+                                    "dec_control_flow_flags": code})
+        return bad[:8]
+
+    def extra_checks_svc(self, ctx):
         cases = self.gen_service_cases(ctx["rng"], ctx["tier"])
         outs, inc = verif.run_side(ctx["hcmd"], cases, self.timeout_per_case)
         mouts, _ = verif.run_side(ctx["mcmd"], cases, self.timeout_per_case)
